@@ -305,6 +305,7 @@ type grid struct {
 	v        [][]verdict // [order index][completeAt 0..n]
 	leafErrs []string
 	eager    *eagerDiff
+	early    *eagerDiff // order = the leaves that answered during their send call
 }
 
 // eagerDiff: the answer depends on when the goroutine waiting in WaitResponse gets to run.
@@ -357,6 +358,23 @@ func (w *world) run(sql string, lay layoutT) *grid {
 		}
 		g.orders = append(g.orders, order)
 		g.v = append(g.v, row)
+		if oi == 0 && n >= 2 {
+			// answers that arrive while the root is still sending: every non-empty set of leaves answers inside the send
+			// call of its own request, the other answers and the completion follow; the waiter runs as early as it can
+			for set := 1; set < 1<<n; set++ {
+				var during []int
+				for i := 0; i < n; i++ {
+					if set&(1<<i) != 0 {
+						during = append(during, i)
+					}
+				}
+				e := w.c.DeliverX(sql, w.tr, run, vbox.DeliverOpt{Order: order, CompleteAt: n, Clone: true, Eager: true, DuringSend: during})
+				w.rep.Evaluations++
+				if ev := toVerdict(e.Result, e.Err); !same(ev, row[n]) && g.early == nil {
+					g.early = &eagerDiff{order: during, compAt: n, doneAfter: e.DoneAfter, events: e.Events, lazy: row[n], eager: ev}
+				}
+			}
+		}
 	}
 	return g
 }
@@ -653,6 +671,13 @@ func (w *world) checkData(data []int, layouts []layoutT, only string) {
 					fmt.Sprintf("(waiter runs after all %d events) %s", e.events, e.lazy),
 					verdict{Err: e.eager.Err, Canon: e.eager.Canon})
 				_ = e.doneAfter
+			}
+			// 6. answers that arrive while the root is still sending
+			if g.early != nil {
+				e := g.early
+				viol("answer_during_send", "query/context.baseTaskContext.SendRequest", e.order, e.compAt,
+					fmt.Sprintf("(all answers after the send stage) %s", e.lazy),
+					verdict{Err: e.eager.Err, Canon: e.eager.Canon})
 			}
 			// 4. intermediate tier (group by queries; the broker uses it only with more than one storage node)
 			if strings.Contains(q.SQL, "group by") && nLeaves >= 2 && !w.noInter {
